@@ -5,6 +5,11 @@ HERE = os.path.dirname(os.path.dirname(os.path.abspath(__file__)))
 
 CLAIMED = {
  # id: (level, technique, text, note, design_ref)
+ "C17": ("fault_enumeration",
+         "deterministic simulation on an AddressSanitizer build with allocator fault injection: every history runs fault-free and then once per failing allocation index (seeded sample in the quick tier, all indices in the thorough tier), each in a forked child",
+         "Histories (C09 segmentation / buffer-carrier / aliasing histories, C10 life-cycle histories with copies, and a sweep over hashes, XOF squeezing, KDFs, bcrypt, scrypt, PKCS#1 v1.5 and OAEP decoding, strxor, AES-NI short and partial inputs, CFB with illegal segment sizes, OCB tag lengths, BLAKE2 parameters, EC points on nine curves incl. mixed-curve operands, ECDSA/EdDSA, DH, modexp, with copy / delete / gc.collect in between) are executed against /repo built with -fsanitize=address and PYTHONMALLOC=malloc. A shim linked into the build makes the i-th allocation of pycryptodome's C code return NULL; i ranges over a seeded sample of 24 indices per history (quick) or all of them (thorough). Any AddressSanitizer report or death by signal is a violation, keyed by error kind and the first pycryptodome frame. Enumerates allocation failures per history; histories themselves are sampled.",
+         "Leaks are not judged. A wrong value without an exception under an injected allocation failure is recorded as an observation only (the property is a memory-safety statement). No UBSan. Pre-emption and threads are C19's business.",
+         "DESIGN.md section 4 (C17)"),
  "C16": ("exploration",
          "deterministic simulation of a replicated state machine: the same seeded operation log is executed by replicas under different deployment configurations (use_aesni/use_clmul flags, patched CPU-feature probes, PYCRYPTODOME_DISABLE_GMP, build without the C modexp) and results, types and exceptions must never diverge",
          "Seeded operation logs on three layers: (1) an integer register machine over the IntegerGMP, IntegerCustom and IntegerNative classes (45 operation kinds incl. in-place operators, shifts of negative values, modular exponentiation with odd/even/unit moduli, inverse, modular square root, Jacobi, byte conversion, mixed int/Integer operands, _mult_modulo_bytes; operands around word boundaries; the four named precondition violations compared by exception type; registers must stay in lock step); (2) AES in every mode with and without AES-NI and GCM with and without CLMUL on unaligned carriers, executed in a forked child so that a crash of one variant counts as a divergence; (3) three replica processes (default; GMP disabled with CPU probes patched off; build without _modexp with CLMUL off) executing RSA/DSA/ECDSA signing, OAEP, key and prime generation, primality tests and default-flag AES/GCM under shared entropy tapes. Sampling, not proof.",
@@ -89,7 +94,7 @@ def main():
         na.append({"property_id": p, "reason": "not claimed yet: the simulation machine for this property (DESIGN.md section 4) is not built at this commit; it will move to 'checks' when it is"})
     man = {
         "version": 1,
-        "setup_cmd": "./vcheck.py build plain",
+        "setup_cmd": "./vcheck.py build plain asan inst noaccel",
         "hooks": {"guard": "none (no source hook in /repo; all seams are installed from outside: os.urandom and Crypto.Util._raw_api.load_lib are monkeypatched before import, allocator and function-entry hooks come from compiler flags applied to scratch builds)",
                   "enable": "not applicable: checks build scratch copies of /repo's working tree under /verif/.cache/build with variant flags (plain / asan / inst / noaccel); no guard variable changes /repo's behaviour",
                   "baseline_off_cmd": "/venv/bin/python /verif/tools/run_suite.py /repo",
